@@ -563,6 +563,9 @@ def run(prog, rep, tier):
                 okp = True
             if d[0] in ("variant",) and d[1][0] == "call" and d[1][1] in ("get",) and d[2] == 0:
                 okp = True
+            # `let Some(x) = map.get(..) else { return None }` lowers to "discriminant is not Some"
+            if d[0] == "variant_not" and d[1][0] == "call" and d[1][1] in ("get",) and 1 in tuple(d[2]):
+                okp = True
         if not okp:
             none_bad.append(p_.blocks[-5:])
     rep.examined(R64, PL + "::recv_many_chan|none", sample={"None_returns_not_explained_by_empty_registration_or_failed_lookup": len(none_bad)})
